@@ -470,3 +470,56 @@ Definition hashless_refs_known (sc : list (str * json)) : bool :=
                  end
              | _ => true
              end) sc.
+
+(* ---------------------------------------------------------------------- *)
+(* StructOK: the structural rules of the property statement as a boolean   *)
+(* predicate on the loaded sidecar (written from the statement).           *)
+
+Definition is_nil {A} (l : list A) : bool := match l with [] => true | _ => false end.
+
+(* all curly-brace references made by the strings of a column *)
+Definition col_refs (v : json) : list str := flat_map find_refs (column_strings v).
+
+(* a reference names an existing HED-bearing column, and no column of that
+   name holds references itself (no nesting) *)
+Definition ref_target_ok (sc : list (str * json)) (r : str) : bool :=
+  existsb (fun c : str * json => str_eqb r (fst c) && hed_bearing (snd c)) sc
+  && forallb (fun c : str * json => negb (str_eqb r (fst c)) || is_nil (col_refs (snd c))) sc.
+
+(* braces balanced and un-nested; every reference is not the column itself and
+   is HED or a legal target *)
+Definition string_ok (sc : list (str * json)) (name : str) (s : str) : bool :=
+  braces_ok s
+  && forallb (fun r => negb (str_eqb r name) && (str_eqb r s_HED || ref_target_ok sc r)) (find_refs s).
+
+(* a categorical entry: non-empty string, key is not n/a, no '#' *)
+Definition cat_entry_ok (sc : list (str * json)) (name : str) (kv : str * json) : bool :=
+  match snd kv with
+  | JStr s => negb (is_nil s) && negb (str_eqb (fst kv) s_NA) && Nat.eqb (count ch_hash s) 0
+              && string_ok sc name s
+  | _ => false
+  end.
+
+(* a top-level entry: the HED entry is a string with exactly one '#', or a
+   non-empty map of categorical entries; entries without a HED entry (plain
+   metadata, any JSON value) do not use the key HED anywhere inside *)
+Definition col_ok (sc : list (str * json)) (col : str * json) : bool :=
+  let (name, v) := col in
+  match v with
+  | JObj kvs =>
+      match lookup s_HED kvs with
+      | None => negb (check_for_key s_HED v)
+      | Some (JStr s) => Nat.eqb (count ch_hash s) 1 && string_ok sc name s
+      | Some (JObj hv) => negb (is_nil hv) && forallb (cat_entry_ok sc name) hv
+      | Some _ => false
+      end
+  | _ => negb (check_for_key s_HED v)
+  end.
+
+(* HED is not a column name and every entry is well-formed *)
+Definition struct_ok (sc : list (str * json)) : bool :=
+  negb (mem_str s_HED (map fst sc)) && forallb (col_ok sc) sc.
+
+(* every HED string of the sidecar, in document order *)
+Definition doc_strings (sc : list (str * json)) : list str :=
+  flat_map (fun c : str * json => column_strings (snd c)) sc.
